@@ -42,6 +42,13 @@ CHECKS = {
             'ranges, not enumerable, and the oracle is exact.',
             'Trusts struct.pack at native width as IEEE reference and the harness layout function (DESIGN 4/C19).',
             'DESIGN.md 4 C19'),
+    'C20': ('hypothesis generated identities and requests; oracle = client-side chain following against the configured object set, PDU size bound, termination bound',
+            'Generated identities (any id subset, value lengths 0..245 size-biased around page breaks), all read codes and start '
+            'ids; the whole request/response chain a client performs is executed through ServerDecoder/execute/encode/ClientDecoder '
+            'and the union of pages is compared as a multiset with the configured non-empty objects of the category; every PDU '
+            '<= 253 bytes; chain must end within #objects+2 pages. Sweep of every single-object length.',
+            'Completeness is judged for start id 0 or a populated id of the category and for identities whose objects fit a PDU (<=244 bytes).',
+            'DESIGN.md 4 C20'),
 }
 
 ALL = ['C%02d' % i for i in range(1, 21)]
